@@ -412,6 +412,31 @@ M("r21-revert-F31-initial-sit-dedupe", ["C01", "C09"], "break",
 M("r21-nonstart-dedupe-ignores-parent", ["C01", "C09"], "break",
   [("yaep.c", "    if (new_sits[i] == sit && new_core->parent_indexes[i] == parent)\n      return;", "    if (new_sits[i] == sit)\n      return;")],
   "set_add_new_nonstart_sit/duplicate-test")
+M("r22-derived-sit-context-zero", ["C01", "C09"], "break",
+  [("yaep.c", "    set_add_new_nonstart_sit (sit_create (rule, i + 1, context), parent);", "    set_add_new_nonstart_sit (sit_create (rule, i + 1, 0), parent);")],
+  "add_derived_nonstart_sits/sit_create")
+M("r22-derived-sit-context-inline-benign", ["C01", "C09"], "benign",
+  [("yaep.c", "    set_add_new_nonstart_sit (sit_create (rule, i + 1, context), parent);", "    set_add_new_nonstart_sit (sit_create (sit->rule, i + 1, sit->context), parent);")])
+M("r22-error-lookahead-of-old-situation", ["C01", "C09", "C06"], "break",
+  [("yaep.c", "	  && !term_set_test (new_sit->lookahead, grammar->term_error_num))\n	continue;\n#ifndef ABSOLUTE_DISTANCES\n      dist = 0;\n#else\n      dist = pl_curr;",
+    "	  && !term_set_test (sit->lookahead, grammar->term_error_num))\n	continue;\n#ifndef ABSOLUTE_DISTANCES\n      dist = 0;\n#else\n      dist = pl_curr;")],
+  "build_new_set/error-lookahead")
+M("r22-first-predicted-excluded", ["C01"], "break",
+  [("yaep.c", "	  if (symb->empty_p && i >= new_core->n_all_dists)", "	  if (symb->empty_p && i > new_core->n_all_dists)")], "expand_new_start_set/bound-compare")
+M("r10-follow-tail-test-outer-counter", ["C01", "C06", "C09", "C10"], "break",
+  [("yaep.c", "		    if (k == rhs_len)\n		      changed_p |= term_set_or (rhs_symb->u.nonterm.follow,", "		    if (j == rhs_len - 1)\n		      changed_p |= term_set_or (rhs_symb->u.nonterm.follow,")],
+  "create_first_follow_sets/scan-completed-test")
+M("r10-follow-tail-test-ge-benign", ["C01", "C06", "C09", "C10"], "benign",
+  [("yaep.c", "		    if (k == rhs_len)\n		      changed_p |= term_set_or (rhs_symb->u.nonterm.follow,", "		    if (k >= rhs_len)\n		      changed_p |= term_set_or (rhs_symb->u.nonterm.follow,")])
+M("r4e-sit-table-fixed-chunk", ["C14", "C12"], "break",
+  [("yaep.c", "      diff\n	= (char *) context_sit_table_ptr - (char *) VLO_BOUND (sit_table_vlo);\n      diff += sizeof (struct sit **);\n      if (grammar->lookahead_level > 1 && diff == sizeof (struct sit **))\n	diff *= 10;",
+    "      diff = sizeof (struct sit **);\n      if (grammar->lookahead_level > 1)\n	diff *= 10;")],
+  "sit_create/grow-sit_table_vlo")
+M("r4e-core-symb-table-one-row", ["C14", "C12"], "break",
+  [("yaep.c", "      diff = ((char *) core_symb_vect_ptr\n	      - (char *) VLO_BOUND (core_symb_table_vlo));\n#else", "      diff = 0;\n#else")],
+  "core_symb_vect_addr_get/grow-core_symb_table_vlo")
+M("r4e-sit-table-more-rows-benign", ["C14", "C12"], "benign",
+  [("yaep.c", "      diff += sizeof (struct sit **);\n      if (grammar->lookahead_level > 1 && diff == sizeof (struct sit **))\n	diff *= 10;", "      diff += 4 * sizeof (struct sit **);")])
 
 # ---- R8 / R2f (C16, C19) ----------------------------------------------------------------------------
 M("r8-revert-F14", ["C19", "C16"], "break", [("hashtab.cpp", "		  entry_ptr = first_deleted_entry_ptr;\n		  *entry_ptr = EMPTY_ENTRY;", "		  entry_ptr = first_deleted_entry_ptr;\n		  *entry_ptr = DELETED_ENTRY;")], "find_hash_table_entry~")
